@@ -98,20 +98,20 @@ theorem persistent_load (w : List (Key × Val)) (ps : PSt) : persistent (load w 
 theorem persistent_restart (s : St) : persistent (restart s) = persistent s := rfl
 
 /-- nothing is in flight: no query is computing and no backward-projection lock is held -/
-def Quiescent (s : St) : Prop := s.computing = [] ∧ s.bpLock = []
+def Quiescent (s : St) : Prop := s.computing = [] ∧ s.bpLock = [] ∧ s.tfcStack = []
 
 instance (s : St) : Decidable (Quiescent s) := by unfold Quiescent; exact inferInstance
 
 /-- on a quiescent state a restart forgets exactly the per-epoch `dirtied` set and the statistic -/
 theorem restart_quiescent {s : St} (h : Quiescent s) :
     restart s = { s with dirtied := [], dirtiedEdges := 0 } := by
-  obtain ⟨h1, h2⟩ := h
+  obtain ⟨h1, h2, h3⟩ := h
   cases s
   simp only [restart, load, persistent] at *
-  subst h1; subst h2; rfl
+  subst h1; subst h2; subst h3; rfl
 
 theorem restart_idem (s : St) : restart (restart s) = restart s := rfl
 
-theorem restart_quiescent' (s : St) : Quiescent (restart s) := ⟨rfl, rfl⟩
+theorem restart_quiescent' (s : St) : Quiescent (restart s) := ⟨rfl, rfl, rfl⟩
 
 end Qbice.Persist
